@@ -184,12 +184,20 @@ func primitiveBlock(objs []obj, variant int) []byte {
 
 // buildPBF renders the document (node/way/relation objects only) as an .osm.pbf file.
 func buildPBF(objs []obj, variant int) []byte {
+	data, _, _ := buildPBFEx(objs, variant)
+	return data
+}
+
+// buildPBFEx also returns the block boundaries: ends[k] = offset after the k-th file block (k = 0: the header
+// block), counts[k] = number of objects encoded before that offset.
+func buildPBFEx(objs []obj, variant int) (data []byte, ends []int, counts []int) {
 	var out bytes.Buffer
 	var h pbuf
 	h.bytesF(4, []byte("OsmSchema-V0.6"))
 	h.bytesF(4, []byte("DenseNodes"))
 	h.bytesF(16, []byte("verif"))
 	fileBlock(&out, "OSMHeader", h.b, variant%2 == 1)
+	ends, counts = append(ends, out.Len()), append(counts, 0)
 	per := []int{8000, 1, 3, 8000}[variant%4]
 	var real []obj
 	for _, o := range objs {
@@ -203,6 +211,7 @@ func buildPBF(objs []obj, variant int) []byte {
 			j = len(real)
 		}
 		fileBlock(&out, "OSMData", primitiveBlock(real[i:j], variant), (variant/2)%2 == 1)
+		ends, counts = append(ends, out.Len()), append(counts, j)
 	}
-	return out.Bytes()
+	return out.Bytes(), ends, counts
 }
